@@ -95,15 +95,38 @@ def run_pass(pid, cfg, pas, tier, replay_rec, deadline_s, workdir):
         log = open(out + ".log", "w")
         procs.append((subprocess.Popen(cmd, stdout=log, stderr=subprocess.STDOUT, env=env), out, log, cmd))
     res = []
-    hard_limit = deadline_s * 2 + 180
+    hard_limit = float(os.environ.get("VERIF_HARD_LIMIT_S") or (deadline_s * 2 + 180))
     t0 = time.time()
-    for p, out, log, cmd in procs:
+    timed_out = []
+    for i, (p, out, log, cmd) in enumerate(procs):
         try:
             p.wait(timeout=max(1, hard_limit - (time.time() - t0)))
         except subprocess.TimeoutExpired:
             p.kill()
             p.wait()
+            timed_out.append(i)
         log.close()
+    if timed_out:
+        # replay before report: a shard that ran into OUR hard limit (a loaded machine looks the same as a hang) is run once
+        # more, with twice the limit; only a shard that does not finish then either is reported (as non-termination)
+        sys.stderr.write("%s: %d shard(s) hit the hard limit of %ds - re-running them with %ds\n" % (pid, len(timed_out), hard_limit, 2 * hard_limit))
+        again = []
+        for i in timed_out:
+            _p, out, _log, cmd = procs[i]
+            if os.path.exists(out):
+                os.remove(out)
+            log = open(out + ".log", "a")
+            again.append((i, subprocess.Popen(cmd, stdout=log, stderr=subprocess.STDOUT, env=env), log))
+        t1 = time.time()
+        for i, p2, log in again:
+            try:
+                p2.wait(timeout=max(1, 2 * hard_limit - (time.time() - t1)))
+            except subprocess.TimeoutExpired:
+                p2.kill()
+                p2.wait()
+            log.close()
+            procs[i] = (p2, procs[i][1], log, procs[i][3])
+    for p, out, log, cmd in procs:
         if p.returncode != 0 or not os.path.exists(out):
             tail = open(out + ".log").read()[-3000:]
             res.append({"crash": True, "rc": p.returncode, "cmd": " ".join(cmd), "log": tail,
